@@ -2,7 +2,7 @@
 Model of the .tdda serialisation helpers of tdda/constraints/base.py:
   strip_lines (:768-780, after the fix that splits on '\n' only),
   to_preferred_order (:986-988), Constraint.to_dict_value (:447-451, :461-487),
-  get_date (:973-983) on the three textual date layouts.
+  get_date (:988-1012) on the three naive date layouts and the UTC-offset layout RTZ.
 -/
 import TddaVerif.Py.Text
 namespace TddaVerif.TddaFile
@@ -31,7 +31,7 @@ namespace TddaVerif.TddaFile
 open TddaVerif.Py
 
 /-- a naive datetime as its civil fields (what `datetime.datetime(...)` holds) -/
-structure Civil where
+structure Naive where
   y : Nat
   mo : Nat
   d : Nat
@@ -48,7 +48,7 @@ def daysInMonth (y m : Nat) : Nat :=
   else if m == 4 || m == 6 || m == 9 || m == 11 then 30 else 31
 
 /-- the argument check of `datetime.datetime(y, m, d, H, M, S, us)` -/
-def Civil.valid (t : Civil) : Bool :=
+def Naive.valid (t : Naive) : Bool :=
   1 ≤ t.y && t.y ≤ 9999 && 1 ≤ t.mo && t.mo ≤ 12 && 1 ≤ t.d && t.d ≤ daysInMonth t.y t.mo &&
   t.h ≤ 23 && t.mi ≤ 59 && t.s ≤ 59 && t.us ≤ 999999
 
@@ -60,7 +60,7 @@ def pad : Nat → Nat → Line
   | k + 1, n => pad k (n / 10) ++ [digitChar n]
 
 /-- `str(datetime)`: `YYYY-MM-DD HH:MM:SS` and `.ffffff` when the microsecond is not 0 -/
-def strDatetime (t : Civil) : Line :=
+def strNaive (t : Naive) : Line :=
   pad 4 t.y ++ ['-'] ++ pad 2 t.mo ++ ['-'] ++ pad 2 t.d ++ [' '] ++
   pad 2 t.h ++ [':'] ++ pad 2 t.mi ++ [':'] ++ pad 2 t.s ++
   (if t.us == 0 then [] else '.' :: pad 6 t.us)
@@ -103,31 +103,105 @@ def parseTimePart (l : Line) : Option (Nat × Nat × Nat × Line) := do
   let (s, r5) ← takeExact 2 r4
   pure (h, mi, s, r5)
 
-inductive DateParse
+inductive NaiveParse
   | notDate
   /-- one of the three layouts matched but `datetime(...)` rejected the numbers: the string is kept -/
+  | invalid
+  | ok (t : Naive)
+deriving DecidableEq, Repr
+
+/-- the three naive layouts RD, RDT, RDTM in turn (`$` also accepts one final newline); the second component tells
+    whether the date-only layout RD was the one that matched -/
+def getNaiveL (s : Line) : NaiveParse × Bool :=
+  let fin (rest : Line) : Bool := rest == [] || rest == ['\n']
+  let mk (t : Naive) : NaiveParse := if t.valid then .ok t else .invalid
+  match parseDatePart s with
+  | none => (.notDate, false)
+  | some (y, m, d, r) =>
+    if fin r then (mk ⟨y, m, d, 0, 0, 0, 0⟩, true)
+    else match parseTimePart r with
+      | none => (.notDate, false)
+      | some (h, mi, sec, r2) =>
+        if fin r2 then (mk ⟨y, m, d, h, mi, sec, 0⟩, false)
+        else match r2 with
+          | '.' :: fr =>
+            let ds := fr.takeWhile isDigit
+            if !ds.isEmpty && fin (fr.drop ds.length) then (mk ⟨y, m, d, h, mi, sec, natOfDigits ds⟩, false)
+            else (.notDate, false)
+          | _ => (.notDate, false)
+
+def getNaive (s : Line) : NaiveParse := (getNaiveL s).1
+
+/-- a datetime as `datetime.datetime` holds it: the civil fields and, for an aware one, the UTC offset in minutes -/
+structure Civil where
+  naive : Naive
+  off : Option Int := none
+deriving DecidableEq, Repr
+
+/-- the argument checks of `datetime.datetime(...)` and of `datetime.timezone(offset)` (strictly within a day) -/
+def Civil.valid (t : Civil) : Bool :=
+  t.naive.valid && (match t.off with
+    | none => true
+    | some o => decide (-1440 < o) && decide (o < 1440))
+
+/-- the `+HH:MM` / `-HH:MM` suffix `str()` gives a whole-minute UTC offset -/
+def strOffset (o : Int) : Line :=
+  (if o < 0 then '-' else '+') :: (pad 2 (o.natAbs / 60) ++ ':' :: pad 2 (o.natAbs % 60))
+
+/-- `str(datetime)`: the naive text, followed by the offset for an aware one -/
+def strDatetime (t : Civil) : Line :=
+  strNaive t.naive ++ (match t.off with | none => [] | some o => strOffset o)
+
+/-- does the text end with `:dd` or `:dd.d+` (what RTZ demands of the part before the offset)? -/
+def endsWithSeconds (b : Line) : Bool :=
+  let r := b.reverse
+  let afterFrac : Line :=
+    let ds := r.takeWhile isDigit
+    match r.drop ds.length with
+    | '.' :: rest => if ds.isEmpty then r else rest
+    | _ => r
+  let plain (q : Line) : Bool :=
+    match q with
+    | d2 :: d1 :: ':' :: _ => isDigit d2 && isDigit d1
+    | _ => false
+  plain r || plain afterFrac
+
+/-- RTZ `^(.*:\d{2}(?:\.\d+)?)([+-])(\d{2}):(\d{2})$`: the text before the offset and the offset in minutes -/
+def splitOffset (s : Line) : Option (Line × Int) :=
+  let s' := if s.getLast? == some '\n' then s.dropLast else s
+  if s'.contains '\n' || s'.length < 6 then none else
+  let body := s'.take (s'.length - 6)
+  match s'.drop (s'.length - 6) with
+  | [sg, h1, h2, c, m1, m2] =>
+    if (sg == '+' || sg == '-') && isDigit h1 && isDigit h2 && c == ':' && isDigit m1 && isDigit m2 &&
+       endsWithSeconds body then
+      let mins : Nat := natOfDigits [h1, h2] * 60 + natOfDigits [m1, m2]
+      some (body, if sg == '-' then -(mins : Int) else (mins : Int))
+    else none
+  | _ => none
+
+inductive DateParse
+  | notDate
+  /-- a layout matched but `datetime(...)` / `timezone(...)` rejected the numbers: the string is kept -/
   | invalid
   | ok (t : Civil)
 deriving DecidableEq, Repr
 
-/-- get_date (:973-983) on ASCII text: RD, RDT, RDTM in turn (`$` also accepts one final newline) -/
+/-- get_date (:988-1012) on ASCII text: an optional UTC offset (RTZ) is split off, the rest is read by the naive
+    layouts (the date-only layout is not accepted together with an offset) -/
 def getDate (s : Line) : DateParse :=
-  let fin (rest : Line) : Bool := rest == [] || rest == ['\n']
-  let mk (t : Civil) : DateParse := if t.valid then .ok t else .invalid
-  match parseDatePart s with
-  | none => .notDate
-  | some (y, m, d, r) =>
-    if fin r then mk ⟨y, m, d, 0, 0, 0, 0⟩
-    else match parseTimePart r with
-      | none => .notDate
-      | some (h, mi, sec, r2) =>
-        if fin r2 then mk ⟨y, m, d, h, mi, sec, 0⟩
-        else match r2 with
-          | '.' :: fr =>
-            let ds := fr.takeWhile isDigit
-            if !ds.isEmpty && fin (fr.drop ds.length) then mk ⟨y, m, d, h, mi, sec, natOfDigits ds⟩
-            else .notDate
-          | _ => .notDate
+  match splitOffset s with
+  | none =>
+    (match getNaive s with
+     | .notDate => .notDate
+     | .invalid => .invalid
+     | .ok n => .ok ⟨n, none⟩)
+  | some (body, off) =>
+    (match getNaiveL body with
+     | (_, true) => .notDate
+     | (.notDate, _) => .notDate
+     | (.invalid, _) => .invalid
+     | (.ok n, _) => if decide (-1440 < off) && decide (off < 1440) then .ok ⟨n, some off⟩ else .invalid)
 
 /-- scalar values of the dictionary / of constraint objects -/
 inductive Atom
